@@ -101,6 +101,14 @@ func infoFromCell(cell *hrpc.Cell) (hrpc.RegionInfo, error) {
 	if regInfo.GetOffline() {
 		return nil, OfflineRegionError{n: string(cell.Row)}
 	}
+	// The row key is the name of the region: "table,startkey,id[.md5.]".
+	// Compare and the region cache rely on both separators being there
+	// and on the name not being a search key ("table,key,:").
+	first := bytes.IndexByte(cell.Row, ',')
+	last := bytes.LastIndexByte(cell.Row, ',')
+	if first < 0 || last == first || bytes.Equal(cell.Row[last+1:], []byte(":")) {
+		return nil, fmt.Errorf("invalid region name in %q", cell)
+	}
 	var namespace []byte
 	if !bytes.Equal(regInfo.TableName.Namespace, defaultNamespace) {
 		// if default namespace, pretend there's no namespace
